@@ -1,4 +1,5 @@
 import CelmaVerif.Lemmas.RulesSound
+import CelmaVerif.Lemmas.RulesComplete
 /-
   A small configuration with one rule of each kind, used by the non-vacuity examples of
   Props/C02.lean (and C03): definitions only, plus the proof that it is well-formed.
@@ -41,7 +42,7 @@ instance (a b : Key) : Decidable (a.Clash b) := by
   unfold Key.Clash Key.shareShort Key.shareLong; infer_instance
 
 theorem cfg_wf : cfg.WellFormed := by
-  refine ⟨?_, ?_, ?_⟩
+  refine ⟨?_, ?_, ?_, ?_⟩
   · unfold Disjoint; decide
   · intro d hd c hc k hk
     simp only [cfg, List.mem_cons, List.not_mem_nil, or_false] at hd
@@ -55,6 +56,7 @@ theorem cfg_wf : cfg.WellFormed := by
       simp only [List.mem_cons, List.not_mem_nil, or_false] at hk; subst hk
       exact ⟨0, _, rfl, by decide⟩
     · cases hc
+  · decide
   · decide
 
 /-! ### why the clauses of `Cfg.WellFormed` are needed -/
@@ -91,7 +93,7 @@ theorem cardinality_unsound_without_cardSane :
   revert this
   simp [cfgBadCard, Card.MetBy, valuesGiven]
 
-/-! ### corners where `Obeys` (Spec.lean) accepts and the handler refuses (completeness direction) -/
+/-! ### corners of the completeness direction -/
 
 /-- a mandatory list argument `-l` -/
 def cfgVec : Cfg :=
@@ -106,30 +108,20 @@ theorem obeys_nil_constraints {cfg : Cfg} {inits : List DVal} {us : List Use}
   · intro p u d ks k _ hd hcc
     rw [hn d (List.mem_of_getElem? hd)] at hcc; cases hcc
 
-/-- `-l ,` : the mandatory argument is used (with a list value without elements), every rule as
-    written in Spec.lean is obeyed, but `hasValue()` of the still empty vector is false and the
-    handler throws "mandatory argument missing" -/
+/-- `-l ,` : the mandatory list argument is used, but with a value without elements; `hasValue()` of
+    the still empty vector is false, the handler throws "mandatory argument missing" — and the rule
+    "mandatory" as written in Spec.lean (a list argument needs a use with at least one element)
+    says the same -/
 theorem mandatory_list_without_elements :
-    Obeys cfgVec [.vec []] [⟨0, [','], true⟩] ∧
+    ¬ ObeysMandatory cfgVec [.vec []] [⟨0, [','], true⟩] ∧
     (evalUses cfgVec (cfgVec.initState [.vec []]) [⟨0, [','], true⟩]).isThrow = true := by
-  refine ⟨obeys_nil_constraints ?_ ?_ ?_ ?_ ?_, by decide⟩
-  · intro i d hd _
-    exact Or.inl ⟨_, List.mem_cons_self, by
-      cases i with
-      | zero => rfl
-      | succ i => simp [cfgVec] at hd⟩
-  · intro u hu
-    simp only [List.mem_cons, List.not_mem_nil, or_false] at hu; subst hu
-    refine ⟨_, rfl, ?_⟩
-    intro t ht
-    have : splitSep ',' [','] = [] := by decide
-    rw [this] at ht; cases ht
-  · intro i d hd
-    cases i with
-    | zero => simp only [cfgVec, List.getElem?_cons_zero, Option.some.injEq] at hd; subst hd; trivial
-    | succ i => simp [cfgVec] at hd
-  · intro d hd; simp only [cfgVec, List.mem_cons, List.not_mem_nil, or_false] at hd; subst hd; rfl
-  · intro g hg; cases hg
+  refine ⟨?_, by decide⟩
+  intro h
+  rcases h 0 _ rfl rfl with ⟨u, hu, _, hs⟩ | ⟨_, l, hl, hne⟩
+  · simp only [List.mem_cons, List.not_mem_nil, or_false] at hu; subst hu
+    exact hs rfl (by decide)
+  · simp only [List.getElem?_cons_zero, Option.some.injEq, DVal.vec.injEq] at hl
+    exact hne hl.symm
 
 /-- all-of( `-a`, `--all`) where both keys are spellings of the one argument `-a,--all` -/
 def cfgAll : Cfg :=
@@ -142,11 +134,10 @@ theorem allOf_same_argument_twice :
     Obeys cfgAll [.flag false] [⟨0, [], true⟩] ∧
     (evalUses cfgAll (cfgAll.initState [.flag false]) [⟨0, [], true⟩]).isThrow = true := by
   refine ⟨obeys_nil_constraints ?_ ?_ ?_ ?_ ?_, by decide⟩
-  · intro i d hd _
-    exact Or.inl ⟨_, List.mem_cons_self, by
-      cases i with
-      | zero => rfl
-      | succ i => simp [cfgAll] at hd⟩
+  · intro i d hd hm
+    cases i with
+    | zero => simp only [cfgAll, List.getElem?_cons_zero, Option.some.injEq] at hd; subst hd; cases hm
+    | succ i => simp [cfgAll] at hd
   · intro u hu
     simp only [List.mem_cons, List.not_mem_nil, or_false] at hu; subst hu
     exact ⟨_, rfl, trivial⟩
@@ -161,5 +152,43 @@ theorem allOf_same_argument_twice :
     refine ⟨_, List.mem_cons_self, rfl, _, rfl, ?_⟩
     simp only [List.mem_cons, List.not_mem_nil, or_false] at hk
     rcases hk with rfl | rfl <;> decide
+
+/-- a LevelCounter argument `-v` (mixing of increment and assignment not allowed) -/
+def cfgLevel : Cfg :=
+  { args := [{ key := ⟨some 'v', []⟩, kind := .level, vmode := .optional, card := .unlimited }] }
+
+/-- `-v -v 3`: every single value is acceptable (`ScalarValueOk`) and all rules of Spec.lean are
+    obeyed, but an assignment after an increment is refused — the stateful LevelCounter rule that
+    `LevelValuesOk` states and `rules_complete` assumes -/
+theorem level_mix_refused :
+    Obeys cfgLevel [.level 0] [⟨0, [], true⟩, ⟨0, ['3'], true⟩] ∧
+    (evalUses cfgLevel (cfgLevel.initState [.level 0]) [⟨0, [], true⟩, ⟨0, ['3'], true⟩]).isThrow = true ∧
+    ¬ LevelValuesOk cfgLevel.args[0] 0 false false (valsOf 0 [⟨0, [], true⟩, ⟨0, ['3'], true⟩]) := by
+  refine ⟨obeys_nil_constraints ?_ ?_ ?_ ?_ ?_, by decide, ?_⟩
+  · intro i d hd hm
+    cases i with
+    | zero => simp only [cfgLevel, List.getElem?_cons_zero, Option.some.injEq] at hd; subst hd; cases hm
+    | succ i => simp [cfgLevel] at hd
+  · intro u hu
+    simp only [List.mem_cons, List.not_mem_nil, or_false] at hu
+    rcases hu with rfl | rfl
+    · exact ⟨_, rfl, Or.inl rfl⟩
+    · exact ⟨_, rfl, Or.inr ⟨rfl, 3, rfl⟩⟩
+  · intro i d hd
+    cases i with
+    | zero => simp only [cfgLevel, List.getElem?_cons_zero, Option.some.injEq] at hd; subst hd; trivial
+    | succ i => simp [cfgLevel] at hd
+  · intro d hd; simp only [cfgLevel, List.mem_cons, List.not_mem_nil, or_false] at hd; subst hd; rfl
+  · intro g hg; cases hg
+  · intro h
+    have h2 := h.2.1
+    simp [LevelStepOk, cfgLevel] at h2
+
+/-- … while `-v -v` obeys the LevelCounter rules and is accepted -/
+theorem level_twice_accepted :
+    LevelValuesOk cfgLevel.args[0] 0 false false (valsOf 0 [⟨0, [], true⟩, ⟨0, [], true⟩]) ∧
+    (evalUses cfgLevel (cfgLevel.initState [.level 0]) [⟨0, [], true⟩, ⟨0, [], true⟩]).isOk = true := by
+  refine ⟨?_, by decide⟩
+  simp [valsOf, LevelValuesOk, LevelStepOk, cfgLevel, runChecks]
 
 end CelmaVerif.ProgArgs.RulesExample
